@@ -2,6 +2,7 @@ use crate::report::Report;
 use crate::Ctx;
 
 pub mod server;
+pub mod zone;
 pub mod c14;
 pub mod c15;
 pub mod c16;
@@ -16,6 +17,10 @@ pub fn run(ctx: &Ctx, rep: &mut Report) -> bool {
             server::run_single_zone(ctx, rep, &ctx.prop);
         }
         "c02" | "c03" | "c04" | "c05" | "c08" | "c09" => server::run(ctx, rep, &ctx.prop),
+        "c06" => zone::run_c06(ctx, rep),
+        "c20" => zone::run_c20(ctx, rep),
+        "c21" => zone::run_c21(ctx, rep),
+        "c22" => zone::run_c22(ctx, rep),
         "c14" => c14::run(ctx, rep),
         "c15" => c15::run(ctx, rep),
         "c16" => c16::run(ctx, rep),
